@@ -237,6 +237,30 @@ def replay_native(crate, name, vals, log):
     return out
 
 
+MEM_BUDGET_GB = int(os.environ.get("VERIF_MEM_GB", "52"))
+
+
 def run_many(hs, tier, logdir, jobs):
+    """runs the harnesses in parallel, never admitting more than MEM_BUDGET_GB of address-space
+    limits at once (no swap on this machine: an over-committed run would be killed, not slowed)"""
+    import threading
+
+    cv = threading.Condition()
+    used = [0]
+
+    def one(h):
+        # the default 12 GB limit is a safety net (such harnesses use 1-3 GB); a raised limit is a measured need
+        need = min(h.mem_gb, MEM_BUDGET_GB) if h.mem_gb > 12 else 3
+        with cv:
+            while used[0] + need > MEM_BUDGET_GB:
+                cv.wait()
+            used[0] += need
+        try:
+            return run_harness(h, tier, logdir)
+        finally:
+            with cv:
+                used[0] -= need
+                cv.notify_all()
+
     with ThreadPoolExecutor(max_workers=jobs) as ex:
-        return list(ex.map(lambda h: run_harness(h, tier, logdir), hs))
+        return list(ex.map(one, hs))
